@@ -100,19 +100,23 @@ def rule_c09(prog, rep):
         f = prog.func(nm)
         if f is None:
             continue
-        rep.instance('E2')
         found = None
         for x in walk(f.body):
             if x.get('kind') == 'CallExpr':
                 cands = [c.name for c in prog.callees(f.unit, x) if not isinstance(c, Ext)]
-                if cands:
-                    args = [int_value(a) for a in children(x)[1:]]
-                    consts = [a for a in args if a is not None and not isinstance(a, str)]
-                    found = (cands[0], consts[0] if consts else None)
-        ok = found == (callee, idx)
+                if cands and len(children(x)) >= 3:
+                    # the index is the argument right after the list
+                    a = int_value(children(x)[2])
+                    if isinstance(a, int):
+                        found = (cands[0], a)
+        if found is None:
+            continue            # implemented directly on the end pointers, not as an index form: not decided by this clause
+        rep.instance('E2')
+        ok = found[1] == idx
         rep.oblige('E2', ok, {'function': nm, 'delegates_to': found})
         if not ok:
-            rep.violation('E2', f, f.line, 'end:%s' % nm, '%s delegates to %s, expected %s(list, %d, ...)' % (nm, found, callee, idx))
+            rep.violation('E2', f, f.line, 'end:%s' % nm, '%s delegates to %s(list, %d, ...): the %s end is index %d'
+                          % (nm, found[0], found[1], 'front' if idx == 0 else 'back', idx))
     # ---- E3
     for f in sorted(prog.funcs_in(LIST), key=lambda x: x.line or 0):
         numw = [x for x in walk(f.body) if x.get('kind') == 'UnaryOperator' and x.get('opcode') in ('++', '--')
